@@ -11,10 +11,10 @@ Definition wf_run (draws : list Z) (evs : list event) : Prop :=
 Lemma reach : forall mid0 draws evs, wf_run draws evs ->
   Struct (seen_all [] evs) (final_of mid0 draws evs) /\
   Hist (seen_all [] evs) (ks_all [] evs) (final_of mid0 draws evs) (trace_of mid0 draws evs) /\
-  no_error (trace_of mid0 draws evs).
+  no_error (trace_of mid0 draws evs) /\ Pend (recv_keys evs) (final_of mid0 draws evs).
 Proof.
   intros mid0 draws evs [Hd Hw]. unfold final_of, trace_of. destruct (run (init mid0 draws) evs) as [st' os] eqn:R.
-  pose proof (run_inv evs [] [] (init mid0 draws) [] st' os (struct_init mid0 draws Hd) (hist_init mid0 draws) Hw R) as H. cbn in H. exact H.
+  pose proof (run_inv evs [] [] (init mid0 draws) [] st' os (struct_init mid0 draws Hd) (hist_init mid0 draws) (pend_init mid0 draws) Hw R) as H. cbn in H. exact H.
 Qed.
 
 Lemma in_sched : forall m0 T0 t0 n t m, In (t, m) (sched_of m0 T0 t0 n) -> m = m0 /\ exists k, (k < n)%nat /\ t = T0 + t0 * (2 ^ Z.of_nat k - 1).
@@ -29,9 +29,10 @@ Lemma sent_good : forall mid0 draws evs t m, wf_run draws evs -> In (OSend t m) 
     range (m_tuning m) t0 /\ Z.of_nat n <= MAX_RETRANSMIT (m_tuning m) + 1 /\
     timers_ok (final_of mid0 draws evs) (m_rid m) m T0 t0 n /\
     ((exists e, In e (active_exchanges (final_of mid0 draws evs)) /\ e_rid e = m_rid m) \/
-     In (m_remote m, m_mid m) (recv_keys evs) \/
+     In (m_remote m, m_mid m) (recv_keys evs) \/ In (err_key (m_remote m)) (recv_keys evs) \/
      (Z.of_nat n = MAX_RETRANSMIT (m_tuning m) + 1 /\
-      In (OFail (T0 + t0 * (2 ^ (MAX_RETRANSMIT (m_tuning m) + 1) - 1)) (m_rid m) ConRetransmitsExceeded) (trace_of mid0 draws evs))).
+      (In (OFail (T0 + t0 * (2 ^ (MAX_RETRANSMIT (m_tuning m) + 1) - 1)) (m_rid m) ConRetransmitsExceeded) (trace_of mid0 draws evs) \/
+       In (gone_key (m_rid m)) (recv_keys evs)))).
 Proof.
   intros mid0 draws evs t m W Hin. destruct (reach mid0 draws evs W) as (S & [_ Hg] & _).
   destruct (Hg (m_rid m)) as (m0 & T0 & t0 & n & Hc & Hn & Ht & Hb & Hcl).
@@ -39,7 +40,6 @@ Proof.
   rewrite Hc in Hi. apply in_sched in Hi. destruct Hi as [-> [k [Hk _]]].
   assert (Hn0 : n <> O) by lia. destruct (Hn Hn0) as (_ & Hr & Hle).
   exists T0, t0, n. splits; auto; try lia.
-  destruct (Hcl Hn0) as [H|[H|H]]; auto. right. left. apply ks_all_in in H. destruct H as [[]|H]; auto.
 Qed.
 
 Lemma transmissions_bounded : forall mid0 draws evs t m, wf_run draws evs -> In (OSend t m) (trace_of mid0 draws evs) ->
@@ -70,7 +70,7 @@ Qed.
 (* no ACK / RST with this message's (remote, mid): the exchange is still waiting for a timer that is not overdue,
    or the request failed exactly one more doubled interval after the last copy *)
 Lemma gives_up : forall mid0 draws evs t m, wf_run draws evs -> In (OSend t m) (trace_of mid0 draws evs) ->
-  ~ In (m_remote m, m_mid m) (recv_keys evs) ->
+  ~ In (m_remote m, m_mid m) (recv_keys evs) -> ~ In (err_key (m_remote m)) (recv_keys evs) -> ~ In (gone_key (m_rid m)) (recv_keys evs) ->
   exists T0 t0 n, copies (m_rid m) (trace_of mid0 draws evs) = sched_of m T0 t0 n /\ (0 < n)%nat /\ range (m_tuning m) t0 /\
     Z.of_nat n <= MAX_RETRANSMIT (m_tuning m) + 1 /\
     ( (exists e, In e (active_exchanges (final_of mid0 draws evs)) /\ h_message (e_timer e) = m /\
@@ -78,8 +78,8 @@ Lemma gives_up : forall mid0 draws evs t m, wf_run draws evs -> In (OSend t m) (
       (Z.of_nat n = MAX_RETRANSMIT (m_tuning m) + 1 /\
        In (OFail (T0 + t0 * (2 ^ (MAX_RETRANSMIT (m_tuning m) + 1) - 1)) (m_rid m) ConRetransmitsExceeded) (trace_of mid0 draws evs)) ).
 Proof.
-  intros mid0 draws evs t m W Hin Hno. destruct (sent_good _ _ _ _ _ W Hin) as (T0 & t0 & n & Hc & Hn & Hr & Hle & Ht & Hcl).
-  exists T0, t0, n. splits; auto. destruct Hcl as [[e [He1 He2]]|[H|H]]; [left|tauto|right; exact H].
+  intros mid0 draws evs t m W Hin Hno Hne Hng. destruct (sent_good _ _ _ _ _ W Hin) as (T0 & t0 & n & Hc & Hn & Hr & Hle & Ht & Hcl).
+  exists T0, t0, n. splits; auto. destruct Hcl as [[e [He1 He2]]|[H|[H|[H1 [H|H]]]]]; [left|tauto|tauto|right; auto|tauto].
   destruct (Ht e He1 He2) as (Hm & Hnc & _ & Hdue). exists e. splits; auto.
   - rewrite Hdue, Hnc. reflexivity.
   - destruct (reach mid0 draws evs W) as (S & _). pose proof (s_ex _ _ S) as Hex. rewrite Forall_forall in Hex. specialize (Hex e He1). unfold entry_ok in Hex. tauto.
@@ -98,7 +98,7 @@ Proof.
 Qed.
 
 Lemma no_internal_error : forall mid0 draws evs, wf_run draws evs -> forall t e, ~ In (OError t e) (trace_of mid0 draws evs).
-Proof. intros mid0 draws evs W. destruct (reach mid0 draws evs W) as (_ & _ & H). exact H. Qed.
+Proof. intros mid0 draws evs W. destruct (reach mid0 draws evs W) as (_ & _ & H & _). exact H. Qed.
 
 Lemma nstart_invariant : forall mid0 draws evs, wf_run draws evs ->
   NoDup (map e_remote (active_exchanges (final_of mid0 draws evs))) /\
@@ -121,14 +121,44 @@ Proof.
   intros. unfold live, live_rids. rewrite in_app_iff, in_map_iff. split; intros [H|H]; auto; left; destruct H as [e H]; exists e; tauto.
 Qed.
 
+Lemma recv_live : forall seen st r mid b st' o, Struct seen st -> _remove_exchange st r mid b = (st', o) ->
+  (forall x, live x st' -> live x st \/ ~ In x seen) /\
+  (forall t m, In (OSend t m) o -> live (m_rid m) st \/ ~ In (m_rid m) seen).
+Proof.
+  intros seen st r mid b st' o S H.
+  destruct (recv_shape _ _ _ _ _ _ _ S H) as [(X & -> & ->)|(mon & h & st2 & o1 & o2 & X & -> & Ho1c & _ & En & Er & Es & Ex & Eb & Enr & _ & _ & C)].
+  + split; [auto|intros t m []].
+  + destruct (pop_facts seen st _ mon h S X) as (Hin & _ & _ & _ & _ & Hrest & _). cbn [fst] in *.
+    change r with (fst (r, mid)) in C. apply (continue_after_pop seen st (r, mid) mon h st2 st' o2 S X En Er Ex Eb Enr) in C.
+    destruct C as (_ & _ & _ & _ & q & Q & Hq). cbn [fst] in *.
+    assert (Ho1 : forall t m, ~ In (OSend t m) o1) by (apply (o1_no_error _ _ _ _ Ho1c)).
+    destruct q as [|[m2 mon2] rest].
+    * destruct Hq as (-> & Ex' & Eb'). split.
+      -- intros x Hx. left. apply live_iff in Hx. apply live_iff. rewrite Ex', Eb' in Hx. destruct Hx as [[e [He Hr]]|Hx].
+         ++ left. exists e. apply Hrest in He. tauto.
+         ++ right. eapply in_back_qdel_sub; eauto.
+      -- intros t m Hi. rewrite app_nil_r in Hi. exfalso. eapply Ho1; eauto.
+    * destruct Hq as (-> & Hr2 & Hwf2 & Hseen2 & t & Hrg & -> & Ex' & Eb').
+      assert (Hl2 : live (m_rid m2) st).
+      { apply live_iff. right. apply (in_back_rids _ r _ (m2, m_rid m2) (qget_in _ _ _ Q)). left. reflexivity. }
+      split.
+      -- intros x Hx. left. apply live_iff in Hx. rewrite Ex', Eb' in Hx. destruct Hx as [[e [He Hr]]|Hx].
+         ++ apply in_xset in He. destruct He as [->|[He _]]; [unfold e_rid, e_timer in Hr; cbn in Hr; subst x; exact Hl2|].
+            apply live_iff. left. exists e. apply Hrest in He. tauto.
+         ++ apply live_iff. right. eapply (in_back_qset_sub _ r _ rest); eauto; [apply (s_bl_nodup _ _ S)|].
+            intros y Hy. right. exact Hy.
+      -- intros t' m Hi. apply in_app_iff in Hi. destruct Hi as [Hi|Hi]; [exfalso; eapply Ho1; eauto|].
+         cbn in Hi. destruct Hi as [Hi|[Hi|[]]]; [discriminate|]. inv Hi. left. exact Hl2.
+Qed.
+
 (* only live or brand-new messages are put on the wire, and nothing dead comes back to life *)
 Lemma step_live : forall seen st e st' o, Struct seen st -> wf_event seen e -> step st e = (st', o) ->
   (forall x, live x st' -> live x st \/ ~ In x seen) /\
   (forall t m, In (OSend t m) o -> live (m_rid m) st \/ ~ In (m_rid m) seen).
 Proof.
-  intros seen st e st' o S W H. destruct e as [rid r tn|r b mid|t| |]; cbn [step] in *.
+  intros seen st e st' o S W H. destruct e as [rid r tn|r b mid|t| | |r|rid|r ty mid rid|r on]; cbn [step] in *.
   - destruct W as [W1 W2]. pose proof (request_shape _ _ _ _ _ _ _ S W1 W2 H) as Sh. cbv zeta in Sh.
-    destruct Sh as [(q & Q & -> & Ex & Eb)|(Q & Hno & t & sq & Hrg & -> & Ex & Eb)].
+    destruct Sh as (_ & [(q & Q & -> & Ex & Eb)|(Q & Hno & t & sq & Hrg & -> & Ex & Eb & _)]).
     + split; [|intros t m []]. intros x Hx. apply live_iff in Hx. rewrite Ex, Eb in Hx. destruct Hx as [Hx|Hx]; [left; apply live_iff; auto|].
       unfold qset, back_rids in Hx. cbn [flat_map snd] in Hx. apply in_app_iff in Hx. destruct Hx as [Hx|Hx].
       * unfold q_rids in Hx. rewrite map_app in Hx. apply in_app_iff in Hx. destruct Hx as [Hx|Hx].
@@ -140,30 +170,7 @@ Proof.
         -- apply in_xset in He. destruct He as [->|[He _]]; [right; unfold e_rid, e_timer in Hr; cbn in Hr; subst x; exact W1|left; apply live_iff; left; eauto].
         -- left. apply live_iff. right. apply Eb. exact Hx.
       * intros t' m Hi. cbn in Hi. destruct Hi as [Hi|[Hi|[]]]; [discriminate|]. inv Hi. right. exact W1.
-  - destruct (recv_shape _ _ _ _ _ _ _ S H) as [(X & -> & ->)|(mon & h & st2 & o2 & X & -> & En & Er & Es & Ex & Eb & Eo & C)].
-    + split; [auto|intros t m []].
-    + destruct (pop_facts seen st _ mon h S X) as (Hin & _ & _ & _ & _ & Hrest & _). cbn [fst] in *.
-      change r with (fst (r, mid)) in C. eapply continue_after_pop in C; eauto.
-      2:{ intros p Hp Hf. rewrite Eo. destruct b; auto. apply filter_In. split; auto. apply negb_true_iff. apply Z.eqb_neq. exact Hf. }
-      destruct C as (_ & _ & _ & _ & q & Q & Hq). cbn [fst] in *.
-      assert (Ho1 : forall t m, ~ In (OSend t m) (if b then [OFail (now st) mon MessageError] else [])) by (intros t m Hi; destruct b; cbn in Hi; [destruct Hi as [Hi|[]]; discriminate|tauto]).
-      destruct q as [|[m2 mon2] rest].
-      * destruct Hq as (-> & Ex' & Eb'). split.
-        -- intros x Hx. left. apply live_iff in Hx. apply live_iff. rewrite Ex', Eb' in Hx. destruct Hx as [[e [He Hr]]|Hx].
-           ++ left. exists e. apply Hrest in He. tauto.
-           ++ right. eapply in_back_qdel_sub; eauto.
-        -- intros t m Hi. rewrite app_nil_r in Hi. exfalso. eapply Ho1; eauto.
-      * destruct Hq as (-> & Hr2 & Hwf2 & Hseen2 & t & Hrg & -> & Ex' & Eb').
-        assert (Hl2 : live (m_rid m2) st).
-        { apply live_iff. right. apply (in_back_rids _ r _ (m2, m_rid m2) (qget_in _ _ _ Q)). left. reflexivity. }
-        split.
-        -- intros x Hx. left. apply live_iff in Hx. rewrite Ex', Eb' in Hx. destruct Hx as [[e [He Hr]]|Hx].
-           ++ apply in_xset in He. destruct He as [->|[He _]]; [unfold e_rid, e_timer in Hr; cbn in Hr; subst x; exact Hl2|].
-              apply live_iff. left. exists e. apply Hrest in He. tauto.
-           ++ apply live_iff. right. eapply (in_back_qset_sub _ r _ rest); eauto; [apply (s_bl_nodup _ _ S)|].
-              intros y Hy. right. exact Hy.
-        -- intros t' m Hi. apply in_app_iff in Hi. destruct Hi as [Hi|Hi]; [exfalso; eapply Ho1; eauto|].
-           cbn in Hi. destruct Hi as [Hi|[Hi|[]]]; [discriminate|]. inv Hi. left. exact Hl2.
+  - eapply recv_live; eauto.
   - inv H. split; [auto|intros t' m []].
   - destruct (next_timer st) as [h|] eqn:N; [|inv H; split; [auto|intros t' m []]].
     destruct (next_timer_facts _ _ N) as (e & He1 & He2 & Hmin).
@@ -191,11 +198,24 @@ Proof.
     + apply live_iff. left. exists e'. apply Hrest in He'. tauto.
     + apply live_iff. right. eapply in_back_qdel_sub; eauto.
     + intros t' m Hi. unfold gave_up_outputs in Hi. apply in_map_iff in Hi. destruct Hi as [p [Hp _]]. discriminate.
+  - destruct (error_struct _ _ _ _ _ S H) as (_ & _ & _ & Ex & Eb & _ & ->). split.
+    + intros x Hx. left. apply live_iff in Hx. apply live_iff. rewrite Ex, Eb in Hx. destruct Hx as [[e [He Hr]]|Hx].
+      * left. exists e. apply filter_In in He. tauto.
+      * right. eapply in_back_qdel_sub; eauto.
+    + intros t m Hi. apply in_map_iff in Hi. destruct Hi as [p [Hp _]]. discriminate.
+  - inv H. split; [intros x Hx; left; exact Hx|intros t m []].
+  - destruct (response_shape _ _ _ _ _ _ _ _ S H) as (st1 & o1 & o2 & E1 & -> & S1 & Hn1 & En & Ex & Eb & Er & Enr & _ & _ & _ & Hs2 & _).
+    assert (L : (forall x, live x st1 -> live x st \/ ~ In x seen) /\ (forall t m, In (OSend t m) o1 -> live (m_rid m) st \/ ~ In (m_rid m) seen)).
+    { revert E1. destruct (ty =? 0); intros E1; [eapply recv_live; eauto|]. inv E1. split; [auto|intros t m []]. }
+    destruct L as [L1 L2]. split.
+    + intros x Hx. apply L1. apply live_iff in Hx. apply live_iff. rewrite Ex, Eb in Hx. exact Hx.
+    + intros t m Hi. apply in_app_iff in Hi. destruct Hi as [Hi|Hi]; [eauto|exfalso; eapply Hs2; eauto].
+  - inv H. split; [intros x Hx; left; exact Hx|intros t m []].
 Qed.
 
 Lemma copies_none : forall x (o : list output), (forall t m, In (OSend t m) o -> m_rid m <> x) -> copies x o = [].
 Proof.
-  induction o as [|y o IH]; intros H; cbn; auto. destruct y as [t m| | |]; try (apply IH; intros t' m' Hi; apply (H t' m'); right; exact Hi).
+  induction o as [|y o IH]; intros H; cbn; auto. destruct y as [t m| | | | |]; try (apply IH; intros t' m' Hi; apply (H t' m'); right; exact Hi).
   assert (m_rid m =? x = false) as -> by (apply Z.eqb_neq; apply (H t m); left; reflexivity).
   apply IH. intros t' m' Hi. apply (H t' m'). right. exact Hi.
 Qed.
@@ -233,20 +253,18 @@ Lemma ack_stops : forall mid0 draws evs1 r b mid evs2 mon h,
   let '(st2, o) := step st1 (ERecv r b mid) in
   let '(st3, os) := run st2 evs2 in
   mon = m_rid (h_message h) /\ copies mon (o ++ concat os) = [] /\
-  (if b then In (OFail (now st1) mon MessageError) o else forall t e, ~ In (OFail t mon e) o).
+  (if b then In (gone_key mon) (recv_keys evs1) \/ In (OFail (now st1) mon MessageError) o else forall t e, ~ In (OFail t mon e) o).
 Proof.
   intros mid0 draws evs1 r b mid evs2 mon h [Hd W] X st1.
   apply wf_events_app in W. destruct W as [W1 [_ W2]]. cbn [seen_after] in W2.
-  destruct (reach mid0 draws evs1 (conj Hd W1)) as (S & _). fold st1 in S, X.
+  destruct (reach mid0 draws evs1 (conj Hd W1)) as (S & _ & _ & [Pd1 _]). fold st1 in S, X, Pd1.
   destruct (step st1 (ERecv r b mid)) as [st2 o] eqn:E. destruct (run st2 evs2) as [st3 os] eqn:R.
   destruct (step_struct _ _ (ERecv r b mid) _ _ S I E) as [S2 _]. cbn [seen_after] in S2.
-  cbn [step] in E. destruct (recv_shape _ _ _ _ _ _ _ S E) as [(X' & _)|(mon' & h' & st2' & o2 & X' & -> & En & Er & Es & Ex & Eb & Eo & C)]; [congruence|].
+  cbn [step] in E. destruct (recv_shape _ _ _ _ _ _ _ S E) as [(X' & _)|(mon' & h' & st2' & o1 & o2 & X' & -> & Ho1c & Ho1r & En & Er & Es & Ex & Eb & Enr & _ & _ & C)]; [congruence|].
   rewrite X in X'. inv X'.
   destruct (pop_facts _ st1 _ mon' h' S X) as (Hin & _ & Hmon & _ & _ & Hrest & Hbr & _). cbn [fst] in *.
   change r with (fst (r, mid)) in C.
-  assert (Hout : forall p, In p (outgoing_requests st1) -> fst p <> mon' -> In p (outgoing_requests st2')).
-  { intros p Hp Hf. rewrite Eo. destruct b; auto. apply filter_In. split; auto. apply negb_true_iff. apply Z.eqb_neq. exact Hf. }
-  apply (continue_after_pop (seen_all [] evs1) st1 (r, mid) mon' h' st2' st2 o2 S X En Er Ex Eb Hout) in C.
+  apply (continue_after_pop (seen_all [] evs1) st1 (r, mid) mon' h' st2' st2 o2 S X En Er Ex Eb Enr) in C.
   destruct C as (_ & _ & _ & _ & q & Q & Hq). cbn [fst] in *.
   assert (Hseen : In mon' (seen_all [] evs1)).
   { eapply live_rids_seen; [exact S|]. unfold live_rids. apply in_app_iff. left. apply in_map_iff. exists ((r, mid), (mon', h')). split; auto. }
@@ -264,8 +282,13 @@ Proof.
       + cbn. assert (m_rid m2 =? mon' = false) as -> by (apply Z.eqb_neq; auto). reflexivity.
       + intros t' e Hi. cbn in Hi. destruct Hi as [Hi|[Hi|[]]]; discriminate. }
   destruct Hdead as (Hd1 & Hd2 & Hd3). splits; auto.
-  - rewrite !copies_app, Hd2. rewrite (dead_run evs2 _ st2 st3 os mon' S2 W2 Hseen Hd1 R). destruct b; reflexivity.
-  - destruct b; [left; reflexivity|]. intros t e Hi. cbn in Hi. eapply Hd3; eauto.
+  - rewrite !copies_app, Hd2. rewrite (dead_run evs2 _ st2 st3 os mon' S2 W2 Hseen Hd1 R).
+    destruct Ho1c as [->|[_ ->]]; reflexivity.
+  - destruct b.
+    + destruct (Pd1 _ Hin) as [Ho|Hg]; [right|left; unfold e_rid, e_timer in Hg; cbn in Hg; rewrite <- Hmon in Hg; exact Hg]. unfold e_rid, e_remote, e_timer in Ho. cbn in Ho. rewrite <- Hmon in Ho.
+      rewrite Ho1r; auto; [apply in_app_iff; left; left; reflexivity|]. apply in_map_iff. eexists. split; [|exact Ho]. reflexivity.
+    + intros t e Hi. apply in_app_iff in Hi. destruct Hi as [Hi|Hi]; [|eapply Hd3; eauto].
+      destruct Ho1c as [->|[Hb _]]; [inv Hi|discriminate].
 Qed.
 
 (* an empty ACK / RST with a (remote, mid) of no outstanding exchange changes nothing and produces nothing *)
@@ -283,3 +306,46 @@ Proof.
   - intros H. destruct (xget (r, mid) (active_exchanges st)) as [v|] eqn:X; auto. exfalso. apply xget_in in X.
     pose proof (Hex _ X) as Hok. unfold entry_ok in Hok. destruct Hok as (Hk & _). cbn [fst] in Hk. injection Hk as H1 H2. apply (H _ X). split; symmetry; assumption.
 Qed.
+
+(* a transport error reported for r: every exchange with r and every message backlogged for r is dropped -- no further copy in
+   this step or in any continuation -- and every request pending towards r fails with NetworkError at that instant *)
+Lemma error_stops : forall mid0 draws evs1 r evs2, wf_run draws (evs1 ++ EError r :: evs2) ->
+  let st1 := final_of mid0 draws evs1 in
+  let '(st2, o) := step st1 (EError r) in
+  let '(st3, os) := run st2 evs2 in
+  (forall e, In e (active_exchanges st1) -> e_remote e = r -> copies (e_rid e) (o ++ concat os) = []) /\
+  (forall q p, In (r, q) (backlogs st1) -> In p q -> copies (m_rid (fst p)) (o ++ concat os) = []) /\
+  (forall rid, In (rid, r) (outgoing_requests st1) -> In (OFail (now st1) rid NetworkError) o).
+Proof.
+  intros mid0 draws evs1 r evs2 [Hd W] st1.
+  apply wf_events_app in W. destruct W as [W1 [_ W2]]. cbn [seen_after] in W2.
+  destruct (reach mid0 draws evs1 (conj Hd W1)) as (S & _). fold st1 in S.
+  destruct (step st1 (EError r)) as [st2 o] eqn:E. destruct (run st2 evs2) as [st3 os] eqn:R.
+  destruct (step_struct _ _ (EError r) _ _ S I E) as [S2 _]. cbn [seen_after] in S2.
+  cbn [step] in E. destruct (error_struct _ _ _ _ _ S E) as (_ & _ & _ & Ex & Eb & _ & ->).
+  assert (Hco : forall x, copies x (map (fun q => OFail (now st1) (fst q) NetworkError) (filter (fun q => snd q =? r) (outgoing_requests st1))) = []).
+  { intros x. apply copies_fail_only. intros t m Hi. apply in_map_iff in Hi. destruct Hi as [p [Hp _]]. discriminate. }
+  pose proof (s_live _ _ S) as Hl. unfold live_rids in Hl.
+  assert (Hdead : forall x, In x (live_rids st1) -> ~ live x st2 -> copies x (map (fun q => OFail (now st1) (fst q) NetworkError) (filter (fun q => snd q =? r) (outgoing_requests st1)) ++ concat os) = []).
+  { intros x Hx Hnl. rewrite copies_app, Hco. cbn. apply (dead_run evs2 _ st2 st3 os x S2 W2); auto. apply (live_rids_seen _ st1 x S Hx). }
+  splits.
+  - intros e He Hr. apply Hdead; [unfold live_rids; apply in_app_iff; left; apply in_map; exact He|].
+    intros Hlv. apply live_iff in Hlv. rewrite Ex, Eb in Hlv. destruct Hlv as [[e' [He' Hr']]|Hb].
+    + apply filter_In in He'. destruct He' as [He' Hne]. apply negb_true_iff in Hne. apply Z.eqb_neq in Hne.
+      assert (e' = e) as -> by (apply (in_unique_map e_rid (active_exchanges st1)); auto; eapply nodup_app_l; exact Hl). apply Hne. exact Hr.
+    + apply in_back_qdel_sub in Hb. eapply nodup_app_disjoint; [exact Hl| |exact Hb]. apply in_map. exact He.
+  - intros q p Hq Hp. pose proof (in_back_rids _ _ _ _ Hq Hp) as Hbx. apply Hdead; [unfold live_rids; apply in_app_iff; right; exact Hbx|].
+    intros Hlv. apply live_iff in Hlv. rewrite Ex, Eb in Hlv. destruct Hlv as [[e' [He' Hr']]|Hb].
+    + apply filter_In in He'. destruct He' as [He' _]. eapply nodup_app_disjoint; [exact Hl| |exact Hbx]. rewrite <- Hr'. apply in_map. exact He'.
+    + pose proof (qget_of_in _ _ _ (s_bl_nodup _ _ S) Hq) as Q. rewrite (NoDup_count_occ Z.eq_dec) in Hl. specialize (Hl (m_rid (fst p))).
+      rewrite count_occ_app, (cnt_qdel_split _ _ _ _ (s_bl_nodup _ _ S) Q) in Hl.
+      assert (count_occ Z.eq_dec (q_rids q) (m_rid (fst p)) > 0)%nat by (apply count_occ_In; unfold q_rids; apply in_map_iff; eauto).
+      apply (count_occ_In Z.eq_dec) in Hb. lia.
+  - intros rid Hi. apply in_map_iff. exists (rid, r). split; auto. apply filter_In. split; auto. cbn. apply Z.eqb_refl.
+Qed.
+
+(* cancelling Request.response tells the message layer nothing: exchanges, timers and backlogs are exactly as before
+   (send_message returns no canceller) -- the message keeps being retransmitted, see the Example in Props/C03.v *)
+Lemma cancel_inert : forall st rid, let '(st', o) := step st (ECancel rid) in
+  active_exchanges st' = active_exchanges st /\ backlogs st' = backlogs st /\ now st' = now st /\ o = [].
+Proof. intros. cbn. auto. Qed.
